@@ -237,8 +237,125 @@ func c02Resolve(c *Ctx) {
 var c02VerRe = regexp.MustCompile(`version [0-9]+`)
 var c02HexRe = regexp.MustCompile(`[0-9a-f]{32}`)
 
+// c02Roi: the full-ROI reads of a committed version while later versions replace, shrink, grow or delete the
+// ROI.  The ROI instance keeps instance-wide (unversioned) extents; a committed version's reads must not follow them.
+func c02Roi(c *Ctx) {
+	r := c.Rng.Fork()
+	for ep := 0; ep < 3; ep++ {
+		func() {
+			OpenServer()
+			defer CloseServer()
+			root := NewRepo()
+			NewInstance(root, "roi", "roi", map[string]string{"BlockSize": "32,32,32"})
+			z0 := r.Intn(200) - 100
+			nz := 3 + r.Intn(4)
+			mk := func(za, zb int) []byte {
+				var spans [][4]int
+				for z := za; z <= zb; z++ {
+					for y := 0; y < 2+r.Intn(2); y++ {
+						x := r.Intn(5)
+						spans = append(spans, [4]int{z, 10 + y, x, x + r.Intn(4)})
+					}
+				}
+				b, _ := json.Marshal(spans)
+				return b
+			}
+			body := mk(z0, z0+nz-1)
+			hist := []string{fmt.Sprintf("root: POST roi/roi spans over block z %d..%d: %s; commit", z0, z0+nz-1, trunc(string(body)))}
+			if resp := Post("node/"+root+"/roi/roi", body); !resp.OK() {
+				c.Report("H", "C02 roi-post", resp.String(), "")
+				return
+			}
+			Commit(root)
+			var pts [][3]int
+			for z := z0 - 1; z <= z0+nz; z++ {
+				for y := 10; y < 13; y++ {
+					for x := 0; x < 8; x += 2 {
+						pts = append(pts, [3]int{x*32 + 5, y*32 + 5, z*32 + 5})
+					}
+				}
+			}
+			pq, _ := json.Marshal(pts)
+			snap := func() map[string]string {
+				m := map[string]string{}
+				g := Get("node/" + root + "/roi/roi")
+				m["GET roi/roi"] = fmt.Sprintf("%d %s", g.Code, g.Body)
+				q := Post("node/"+root+"/roi/ptquery", pq)
+				m["POST roi/ptquery"] = fmt.Sprintf("%d %s", q.Code, q.Body)
+				k := Get(fmt.Sprintf("node/%s/roi/mask/0_1_2/256_128_%d/0_320_%d", root, 32*(nz+2), 32*(z0-1)))
+				m["GET roi/mask"] = fmt.Sprintf("%d %s", k.Code, fmt.Sprintf("%x", sha256.Sum256(k.Body)))
+				return m
+			}
+			before := snap()
+			check := func(after string) bool {
+				now := snap()
+				c.Eval("roi committed reads after "+after, true)
+				c.Count("stability.roi." + strings.Fields(after)[0])
+				for _, k := range []string{"GET roi/roi", "POST roi/ptquery", "GET roi/mask"} {
+					if before[k] != now[k] {
+						c.Report("O", "C02 committed-read-changed roi", "a read of an ROI at a committed version changed after a later version edited the ROI",
+							fmt.Sprintf("%s\n%s at the committed root\n  before: %s\n  after:  %s", strings.Join(hist, "\n"), k, trunc(before[k]), trunc(now[k])))
+						return false
+					}
+				}
+				return true
+			}
+			cur := root
+			for step := 0; step < 4; step++ {
+				var child string
+				if step%2 == 0 {
+					child, _ = NewVersion(cur)
+				} else {
+					var br Resp
+					child, br = Branch(root, fmt.Sprintf("b%d", step))
+					if !br.OK() {
+						return
+					}
+				}
+				if child == "" {
+					return
+				}
+				var what string
+				switch k := r.Intn(5); k {
+				case 0: // strictly narrower z range
+					what = fmt.Sprintf("POST roi over block z %d..%d (narrower)", z0+1, z0+nz-2)
+					Post("node/"+child+"/roi/roi", mk(z0+1, z0+nz-2))
+				case 1: // narrower on one side
+					what = fmt.Sprintf("POST roi over block z %d..%d (narrower above)", z0, z0+nz-2)
+					Post("node/"+child+"/roi/roi", mk(z0, z0+nz-2))
+				case 2: // disjoint
+					what = fmt.Sprintf("POST roi over block z %d..%d (disjoint)", z0+nz+3, z0+nz+4)
+					Post("node/"+child+"/roi/roi", mk(z0+nz+3, z0+nz+4))
+				case 3: // wider
+					what = fmt.Sprintf("POST roi over block z %d..%d (wider)", z0-2, z0+nz+1)
+					Post("node/"+child+"/roi/roi", mk(z0-2, z0+nz+1))
+				default:
+					what = "DELETE roi"
+					Do("DELETE", "node/"+child+"/roi/roi", nil)
+				}
+				hist = append(hist, fmt.Sprintf("version %d (%s): %s", step+1, map[bool]string{true: "child of the previous", false: "new branch off the root"}[step%2 == 0], what))
+				if !check(strings.Fields(what)[0] + " in a later version") {
+					return
+				}
+				if step%2 == 0 {
+					Commit(child)
+					cur = child
+				}
+				if r.Intn(3) == 0 {
+					datastore.CloseReopenTest()
+					hist = append(hist, "datastore closed and reopened")
+					if !check("reopen") {
+						return
+					}
+				}
+			}
+		}()
+	}
+}
+
 func c02Stability(c *Ctx) {
 	c02Resolve(c)
+	c02Roi(c)
 	nh, steps := 3, 40
 	if c.Thorough {
 		nh, steps = 30, 60
